@@ -51,7 +51,7 @@ def required(tier):
     return ['mass-view', 'vol-view', 'totals', 'round-trip', 'unit-factor', 'total-keeps-composition', 'dimension-rejected', 'after:phase', 'after:phases', 'after:link', 'after:unlink',
             'after:package', 'after:copy_like', 'after:T', 'multi-phase',
             # added branches
-            'ctor:units', 'ctor:total', 'locked-chemical', 'idx-units:one', 'idx-units:tuple', 'idx-units:whole', 'arr:item', 'arr:slice', 'arr:setter', 'arr:phase-view',
+            'ctor:units', 'ctor:total', 'locked-chemical', 'idx-units:one', 'idx-units:tuple', 'idx-units:whole', 'arr:item', 'arr:slice', 'arr:setter', 'arr:from-view', 'arr:phase-view',
             'key:tuple', 'key:ellipsis', 'key:phase-only', 'key:id-only-read', 'zero-write', 'total:zero', 'total:on-empty', 'after:collapse', 'phase:solid',
             'observer:proxy', 'observer:flow_proxy', 'observer:view', 'observer:copy', 'observer-write', 'after:rlink', 'after:copy_flow', 'after:set_data', 'after:temporary', 'after:reset_flow',
             'baddim:get_flow', 'baddim:set_flow', 'baddim:set_total_flow', 'baddim:ctor', 'baddim:idx-get', 'baddim:idx-set', 'baddim:view-get', 'baddim:view-set', 'baddim:near-miss']
@@ -156,7 +156,8 @@ def gen_case(rng):
             st['view'] = rng.choice(['imol', 'imass', 'ivol']); dim = {'imol': 'mol', 'imass': 'mass', 'ivol': 'vol'}[st['view']]
             st['units'] = rng.choice(UNITS_OF[dim]); st['read'] = rng.choice(UNITS_OF[dim]); st['form'] = rng.choice(['one', 'tuple', 'whole'])
         if t == 'arr':
-            st['view'] = rng.choice(['mol', 'mass', 'vol']); st['form'] = rng.choice(['item', 'item', 'slice', 'setter'])
+            st['view'] = rng.choice(['mol', 'mass', 'vol']); st['form'] = rng.choice(['item', 'item', 'slice', 'setter', 'from-view', 'from-view'])
+            st['how'] = rng.choice(['slice', 'setter', 'copy_like']); st['dT'] = rng.choice([0.0, 25.0, -20.0]); st['dph'] = rng.random() < 0.5
         if t == 'keyed':
             st['view'] = rng.choice(['imol', 'imass', 'ivol']); st['form'] = rng.choice(['tuple', 'ellipsis', 'phase', 'id-only'])
         if t in ('F0', 'F-empty'):
@@ -436,7 +437,25 @@ def run_case(case, rec):
                 view = st['view']; form = st['form']
                 j = A.chemicals.index(i)
                 nA = len(A.chemicals.IDs)
-                if form == 'item':
+                if form == 'from-view':
+                    # the value written is itself the view vector of ANOTHER stream (other T / phase): what is written is that stream's flows in this view's unit
+                    dphase = A.phase if not st.get('dph') else ('g' if A.phase == 'l' else 'l')
+                    donor = tmo.Stream(None, phase=dphase, T=max(260., A.T + st.get('dT', 0.0)), P=A.P, thermo=A._thermo)
+                    for m, cid in enumerate(A.chemicals.IDs[:5]):
+                        if (m + st['k']) % 2: donor.imol[cid] = max(st['v'], 0.5) * (m + 1)
+                    try:
+                        data = dense(getattr(donor, view)).copy()
+                        if st.get('how') == 'slice': getattr(A, view)[:] = getattr(donor, view)
+                        elif st.get('how') == 'copy_like': getattr(A, view).copy_like(getattr(donor, view))
+                        else: setattr(A, view, getattr(donor, view))
+                    except Exception as e:
+                        if isinstance(e, (RuntimeError, ValueError)) and view == 'vol': rec.refuse('volumetric view of the donor / target not available (model domain)'); continue
+                        raise
+                    back = dense(getattr(A, view))
+                    okrt = back.shape == data.shape and np.allclose(back, data, rtol=1e-11, atol=0)
+                    rec.hit('arr:from-view')
+                    form = 'from-view/' + st.get('how', 'setter') + ('/other-phase' if st.get('dph') else '') + ('/other-T' if st.get('dT') else '')
+                elif form == 'item':
                     getattr(A, view)[j] = st['v']; back = float(getattr(A, view)[j]); data = st['v']
                     okrt = abs(back - data) <= 1e-12 * data
                 else:
